@@ -1,9 +1,14 @@
-(* drv_C06.ml — driver: runs the extracted C06 model (SIS recursion) on the
-   histories given on stdin.  The random offsets of the resampling calls are
-   read from the implementation's output file (Sys.argv.(1), "num u1_<k>");
-   a step in which the implementation did not resample gets nan (the model then
-   resamples only if its own decision differs, which the comparison reports). *)
+(* drv_C06.ml — driver: runs the extracted COMMAND-LEVEL C06 model (c06_cmd_trace_full: raw skip
+   commands, steps, resets) on the histories given on stdin.  Nothing about the skip flags is
+   computed here or in the generator: the driver only translates the command tokens of the case
+   ("name+" / "name-") into the model's command type; the flags every step runs under, the answers
+   to the commands and the branch of the state model's propagate come out of the extracted dispatch.
+   The random offsets of the resampling calls are read from the implementation's output file
+   (Sys.argv.(1), "num u1_<k>"); a step in which the implementation did not resample gets nan (the
+   model then resamples only if its own decision differs, which the comparison reports). *)
 let flag (c : Caseio.case) name k = List.nth (Caseio.get_word c name) k = "1"
+let tok (c : Caseio.case) name k dflt =
+  if Caseio.has c name then (let w = Caseio.get_word c name in if List.length w > k then List.nth w k else dflt) else dflt
 
 let cols_of (m : float array array) : Obj.t list list =
   (* columns of a d x N matrix as lists *)
@@ -29,6 +34,21 @@ let dump tag k d (s : (Obj.t list, nat) sset) =
   Caseio.out_mat_shape (tag ^ "aux" ^ sk) n 1
     (Array.of_list (List.map (fun p -> [| float_of_int (int_of_nat (snd p)) |]) s.s_parts))
 
+(* "none" or "name+,name-,..." -> commands *)
+let name_of s = match s with
+  | "prediction" -> NPrediction | "state" -> NState | "exogenous" -> NExogenous
+  | "correction" -> NCorrection | "all" -> NAll | _ -> NOther
+let cmds_of_token (t : string) : (name * bool) list =
+  if t = "none" || t = "" then []
+  else List.filter_map (fun s ->
+         let l = String.length s in
+         if l < 2 then None else Some (name_of (String.sub s 0 (l - 1)), s.[l - 1] = '+'))
+       (String.split_on_char ',' t)
+
+let mode_name m = match m with
+  | MCopy -> "copy" | MFull -> "full" | MStateOnly -> "state" | MExoOnly -> "exo" | MNothing -> "nothing"
+let res_name r = match r with Ok true -> "1" | Ok false -> "0" | Throws -> "T"
+
 let () =
   let cases = Caseio.read_records "case" stdin in
   let impl =
@@ -47,8 +67,9 @@ let () =
         let n = Caseio.meta_int c "N" and dl = Caseio.meta_int c "dl" and dc = Caseio.meta_int c "dc" in
         let kk = Caseio.meta_int c "K" in
         let d = dl + dc in
-        let a = (Caseio.get_mat c "a").(0).(0) in
-        let shift = Caseio.get_mat c "shift" in
+        let have = Caseio.meta c "exo" <> "0" && Caseio.meta c "exo" <> "" in
+        let fs = Caseio.get_mat c "Fs" and shift = Caseio.get_mat c "shift" and off = (Caseio.get_mat c "off").(0) in
+        let gs = if have then Caseio.get_mat c "Gs" else [||] and shift2 = if have then Caseio.get_mat c "shift2" else [||] in
         let gauss = Caseio.meta c "likmodel" = "gauss" in
         (* scripted likelihood: from the case; GaussianLikelihood: the vector the library computed (checked
            against the closed form by the plug-in's oracle), None when it reported the likelihood invalid *)
@@ -59,43 +80,81 @@ let () =
              then Some (lvec_of_col (Caseio.get_mat io ("lik" ^ sk))) else None)
           else
             (if flag c "likvalid" k then Some (Array.to_list (Array.map ob (Caseio.get_mat c "lik").(k))) else None) in
-        let s0 = { s_lin = nat_of_int dl; s_circ = nat_of_int dc;
-                   s_parts = List.mapi (fun i x -> (x, nat_of_int i)) (cols_of (Caseio.get_mat c "init_state"));
-                   s_lw = lvec_of_col (Caseio.get_mat c "init_lw") } in
+        (* the r-th initialisation: columns rotated by r *)
+        let init_state = Caseio.get_mat c "init_state" and init_lw = Caseio.get_mat c "init_lw" in
+        let init_parts r = List.init n (fun i -> let j = (i + r) mod n in (List.init d (fun q -> ob init_state.(q).(j)), nat_of_int j)) in
+        let init_w r = List.init n (fun i -> ob init_lw.((i + r) mod n).(0)) in
+        let s0 = { s_lin = nat_of_int dl; s_circ = nat_of_int dc; s_parts = init_parts 0; s_lw = init_w 0 } in
         (* SIS constructor: cor_particle_(num_particle_, linear, circular): zero states, weights 1/N *)
         let c0 = { s_lin = nat_of_int dl; s_circ = nat_of_int dc;
                    s_parts = List.init n (fun i -> (List.init d (fun _ -> ob 0.0), nat_of_int i));
                    s_lw = List.init n (fun _ -> ob (1.0 /. float_of_int n)) } in
-        let st0 = { step = O; pred = s0; cor = c0 } in
-        let evs =
-          List.init kk (fun k ->
-            let u1 = if Caseio.has io ("u1_" ^ string_of_int k) then Caseio.get_num io ("u1_" ^ string_of_int k) else nan in
-            { ev_skip_pred = flag c "skipp" k; ev_skip_corr = flag c "skipc" k; ev_freeze = flag c "freeze" k;
-              ev_lik = lik_of k;
-              ev_pred = (fun i x ->
-                let fi = float_of_int (int_of_nat i + 1) in
-                List.mapi (fun r v -> let t = a *. fl v in let t = t +. shift.(k).(r) in ob (t +. 0.01 *. fi)) x);
-              ev_u1 = ob u1 }) in
-        let tr = c06_trace_full fops (nat_of_int n) st0 evs in
+        let cs0 = { c_flags = c06_init_flags have; c_sis = { step = O; pred = s0; cor = c0 } } in
+        (* commands given to the parts before the filter was assembled (objects obtained by move after use) *)
+        let pre =
+          (if Caseio.meta c "used_pred" = "1" then cmds_of_token (tok c "precmd_pred" 0 "none") else [])
+          @ (if Caseio.meta c "used_corr" = "1" then cmds_of_token (tok c "precmd_corr" 0 "none") else []) in
+        let matvec (blocks : float array array) k (x : float array) r =
+          let acc = ref 0.0 in
+          for s = 0 to d - 1 do acc := !acc +. blocks.(r).(k * d + s) *. x.(s) done; !acc in
+        let cev k =
+          let u1 = if Caseio.has io ("u1_" ^ string_of_int k) then Caseio.get_num io ("u1_" ^ string_of_int k) else nan in
+          { ce_cmds = (if k = 0 then pre else []) @ cmds_of_token (tok c "cmd" k "none");
+            ce_freeze = flag c "freeze" k;
+            ce_lik = lik_of k;
+            ce_motion = (fun mode i x ->
+              let xa = Array.of_list (List.map fl x) in
+              let fi = float_of_int (int_of_nat i + 1) in
+              List.mapi (fun r _ ->
+                let fx () = matvec fs k xa r and ex () = matvec gs k xa r +. shift2.(k).(r) in
+                let p = match mode with
+                  | MFull -> fx () +. ex ()
+                  | MStateOnly -> fx ()
+                  | MExoOnly -> ex ()
+                  | MCopy | MNothing -> xa.(r) in      (* not reached while the prediction step is not skipped (C06_cmd_prediction) *)
+                let t = p +. shift.(k).(r) in
+                ob (t +. off.(r) *. fi)) x);
+            ce_u1 = ob u1 } in
+        let resets = ref 0 in
+        let items =
+          List.concat (List.init kk (fun k ->
+            let st = IStep (cev k) in
+            if tok c "reset" k "0" = "1" && k < kk - 1 then begin
+              incr resets; let r = !resets in [st; IReset (init_parts r, init_w r)]
+            end else [st])) in
+        let tr = c06_cmd_trace_full fops (nat_of_int n) cs0 items in
         Caseio.out_begin c.id;
-        List.iteri
-          (fun k (((m : (Obj.t list, nat) sset), (dec : bool)), (st : (Obj.t list, nat) sis_state)) ->
-            let sk = string_of_int k in
-            dump "c" k d st.cor; dump "p" k d st.pred;
-            Caseio.out_int ("step" ^ sk) (int_of_nat st.step);
-            Caseio.out_int ("res" ^ sk) (if dec then 1 else 0);
-            Caseio.out_num ("neff" ^ sk) (fl (c06_neff fops m.s_lw));
-            Caseio.out_num ("mlse" ^ sk) (fl (c06_lse fops m.s_lw));
-            Caseio.out_mat_shape ("mlw" ^ sk) (List.length m.s_lw) 1 (col_of_lvec m.s_lw);
-            if dec then begin
-              let u1 = (List.nth evs k).ev_u1 in
-              let par = c06_parents fops m.s_lw u1 in
-              Caseio.out_mat_shape ("par" ^ sk) (List.length par) 1
-                (Array.of_list (List.map (fun p -> [| float_of_int (int_of_nat p) |]) par));
-              Caseio.out_mat_shape ("csw" ^ sk) (List.length m.s_lw) 1 (col_of_lvec (c06_csw fops m.s_lw));
-              Caseio.out_mat_shape ("comb" ^ sk) (List.length m.s_lw) 1
-                (col_of_lvec (c06_comb fops (nat_of_int (List.length m.s_lw)) u1))
-            end)
+        let k = ref 0 in
+        List.iter
+          (fun ((rep : ((res list * (Obj.t list, nat) sset) * bool) option), (cs : (Obj.t list, nat) cstate)) ->
+            match rep with
+            | None -> ()
+            | Some ((answers, m), dec) ->
+              let kk0 = !k in
+              let sk = string_of_int kk0 in
+              let st = cs.c_sis and f = cs.c_flags in
+              dump "c" kk0 d st.cor; dump "p" kk0 d st.pred;
+              Caseio.out_int ("step" ^ sk) (int_of_nat st.step);
+              Caseio.out_int ("fP" ^ sk) (if f.f_pred then 1 else 0);
+              Caseio.out_int ("fS" ^ sk) (if f.f_state then 1 else 0);
+              Caseio.out_int ("fE" ^ sk) (match f.f_exo with None -> -1 | Some true -> 1 | Some false -> 0);
+              Caseio.out_int ("fC" ^ sk) (if f.f_corr then 1 else 0);
+              Caseio.out_word ("mode" ^ sk) [mode_name (prop_mode_of f)];
+              Caseio.out_word ("ret" ^ sk) (if answers = [] then ["-"] else List.map res_name answers);
+              Caseio.out_int ("res" ^ sk) (if dec then 1 else 0);
+              Caseio.out_num ("neff" ^ sk) (fl (c06_neff fops m.s_lw));
+              Caseio.out_num ("mlse" ^ sk) (fl (c06_lse fops m.s_lw));
+              Caseio.out_mat_shape ("mlw" ^ sk) (List.length m.s_lw) 1 (col_of_lvec m.s_lw);
+              if dec then begin
+                let u1 = if Caseio.has io ("u1_" ^ sk) then ob (Caseio.get_num io ("u1_" ^ sk)) else ob nan in
+                let par = c06_parents fops m.s_lw u1 in
+                Caseio.out_mat_shape ("par" ^ sk) (List.length par) 1
+                  (Array.of_list (List.map (fun p -> [| float_of_int (int_of_nat p) |]) par));
+                Caseio.out_mat_shape ("csw" ^ sk) (List.length m.s_lw) 1 (col_of_lvec (c06_csw fops m.s_lw));
+                Caseio.out_mat_shape ("comb" ^ sk) (List.length m.s_lw) 1
+                  (col_of_lvec (c06_comb fops (nat_of_int (List.length m.s_lw)) u1))
+              end;
+              incr k)
           tr;
         Caseio.out_end ())
     cases
